@@ -110,8 +110,11 @@ def run_case(case: dict) -> dict:
             counters["stable:after_a_time_course"] = 1
         sim.simulate_to_steady_state(tolerance=tol, rel_norm=rel)
         params_now = dict(net.params)
-        if rng.random() < 0.25 and not isinstance(sim.get_result().value, Exception):
+        first = None
+        if rng.random() < 0.35 and not isinstance(sim.get_result().value, Exception):
             # a second search on the same simulator after a parameter change: the new steady state, not the old one
+            first = sim.get_result().value  # ... and the segment found before the change stays what it was
+            n_first = len(first.raw_variables)  # (the result object goes on collecting the simulator's later segments)
             kname = rng.choice(sorted(net.params))
             params_now[kname] = round(net.params[kname] * rng.choice([0.5, 2.0, 3.0]), 4)
             sim.update_parameter(kname, params_now[kname])
@@ -135,6 +138,18 @@ def run_case(case: dict) -> dict:
                 bad = {"what": "the state and rates of a result reported as a successful steady state cannot be read", "error": traceback.format_exc()[-500:]}
             if bad:
                 viols.append(core.viol(bad.pop("what"), None, net=net.to_json(), y0=y0, tolerance=tol, rel_norm=rel, parameters=params_now, **bad))
+        if first is not None:
+            # read only now, after the model moved on: state and rates of the earlier result belong to the earlier parameters
+            try:
+                y1 = first.get_variables(include_derived_variables=False, include_readouts=False, include_surrogate_variables=False, concatenated=False)[n_first - 1].iloc[-1].to_dict()
+                bad = check_success(net, dict(net.params), y1, first.get_fluxes(concatenated=False)[n_first - 1].iloc[-1].to_dict(), tol, rel)
+            except Exception:  # noqa: BLE001
+                import traceback
+
+                bad = {"what": "the state and rates of a result reported as a successful steady state cannot be read", "error": traceback.format_exc()[-500:]}
+            counters["stable:earlier_result_read_after_the_model_moved_on"] = 1
+            if bad:
+                viols.append(core.viol(bad.pop("what") + " [segment found before a later parameter change, read after it]", None, net=net.to_json(), y0=y0, tolerance=tol, rel_norm=rel, parameters=dict(net.params), later_parameters=params_now, **bad))
         sample = {"net": net.to_json(), "y0": y0, "tolerance": tol, "rel_norm": rel}
     elif case["kind"] == "nosteady":
         net, kind = nosteady_net(rng)
